@@ -38,7 +38,7 @@ INPUT_OPS = ("CASE", "DS", "FEAT", "GEN", "OP")
 def setup():
     vlib.build_harness(HARNESS, "asan", need_lib=True)
     try:
-        vlib.build_ocaml("c08_driver", "c08_model.ml", "c08_driver.ml")
+        vlib.build_ocaml("c08_driver", "c08_model.ml", "c08_driver.ml", floats=True)
     except (vlib.CheckError, OSError):
         pass  # extraction not built yet: run() builds it after coq_check
 
@@ -76,7 +76,7 @@ def _replay(path):
         print("nothing to replay in %s" % path)
         return 0
     exe = vlib.build_harness(HARNESS, "asan", need_lib=True)
-    drv = vlib.build_ocaml("c08_driver", "c08_model.ml", "c08_driver.ml")
+    drv = vlib.build_ocaml("c08_driver", "c08_model.ml", "c08_driver.ml", floats=True)
     rc, out = vlib.sh(cmd.replace("{exe}", exe), timeout=3000)
     lines = [l for l in out.split("\n") if l]
     rc2, mout = vlib.sh([drv], input="\n".join(l for l in lines if not l.startswith(("FAIL", "DONE"))) + "\n", timeout=3000)
@@ -135,7 +135,7 @@ def run(tier, replay=None):
     mism, checked = [], 0
     drv = None
     try:
-        drv = vlib.build_ocaml("c08_driver", "c08_model.ml", "c08_driver.ml")
+        drv = vlib.build_ocaml("c08_driver", "c08_model.ml", "c08_driver.ml", floats=True)
     except (vlib.CheckError, OSError):
         if cres["ok"]:
             raise
